@@ -28,6 +28,8 @@ type SpecEnv struct {
 	qn        int
 	allowLemma bool
 	loopInv    bool
+	outOfScope bool // a named local does not exist on this path (clause skipped at this return)
+	reads      []Term // reference-typed values read from the heap while evaluating (for well-formedness facts)
 }
 
 func (e *SpecEnv) fail(format string, a ...any) Term {
@@ -89,6 +91,7 @@ func (e *SpecEnv) lookup(name string) (Term, bool) {
 					if _, has := st.vars[v]; has || u.volatile[v] {
 						return u.readVar(st, v, token.NoPos), true
 					}
+					e.outOfScope = true
 					return e.fail("variable %s is not in scope at this point", name), true
 				}
 			}
@@ -145,10 +148,27 @@ func (e *SpecEnv) resolveType(x ast.Expr) types.Type {
 
 func (e *SpecEnv) resolveTypeString(s string) types.Type {
 	s = strings.TrimSpace(s)
+	if !strings.Contains(s, "interface{") && !strings.Contains(s, "struct{") && !strings.Contains(s, "func(") {
+		s = strings.Join(strings.Fields(s), "") // the printer puts blanks after the dot of synthetic selector nodes
+	}
 	if t, ok := e.u.eng.typeCache[e.pkgPath()+"::"+s]; ok {
 		return t
 	}
 	var t types.Type
+	// pkg.Name or *pkg.Name through the package's imports
+	{
+		base := strings.TrimPrefix(s, "*")
+		if i := strings.Index(base, "."); i > 0 && !strings.ContainsAny(base, "[]( ") {
+			if p := e.importedPkg(base[:i]); p != nil {
+				if tn, ok := p.Scope().Lookup(base[i+1:]).(*types.TypeName); ok {
+					t = tn.Type()
+					if strings.HasPrefix(s, "*") {
+						t = types.NewPointer(t)
+					}
+				}
+			}
+		}
+	}
 	if e.pkg != nil {
 		if tv, err := types.Eval(e.u.fset, e.pkg, token.NoPos, s); err == nil && tv.IsType() {
 			t = tv.Type
@@ -226,7 +246,9 @@ func (e *SpecEnv) eval(x ast.Expr) Term {
 		if !ok {
 			return e.fail("deref of non-pointer in contract")
 		}
-		return u.loadCell(e.curState(), pt.Elem(), p.S)
+		r := u.loadCell(e.curState(), pt.Elem(), p.S)
+		e.noteRead(r)
+		return r
 	case *ast.IndexExpr:
 		b := e.eval(x.X)
 		i := e.eval(x.Index)
@@ -341,7 +363,20 @@ func (e *SpecEnv) field(base Term, name string, at ast.Node) Term {
 		}
 		cur = u.fieldGet(cur, i)
 	}
+	e.noteRead(cur)
 	return cur
+}
+
+func (e *SpecEnv) noteRead(t Term) {
+	if t.T == nil {
+		return
+	}
+	switch t.T.Underlying().(type) {
+	case *types.Pointer, *types.Slice, *types.Map:
+		if len(e.reads) < 64 {
+			e.reads = append(e.reads, t)
+		}
+	}
 }
 
 func (e *SpecEnv) index(b, i Term, at ast.Node) Term {
@@ -360,7 +395,9 @@ func (e *SpecEnv) index(b, i Term, at ast.Node) Term {
 			return Term{S: fmt.Sprintf("(select %s %s)", blk.S, u.toIdx(i)), T: at.Elem()}
 		}
 	case *types.Map:
-		v, _ := u.mapLookup(e.curState(), b, i, ut)
+		k := u.coerceSpec(i, ut.Key())
+		k.T = ut.Key()
+		v, _ := u.mapLookupSpec(e.curState(), b, k, ut)
 		return v
 	}
 	return e.fail("unsupported index base %s in contract", b.T)
@@ -468,7 +505,7 @@ func (e *SpecEnv) call(x *ast.CallExpr) Term {
 			}
 			k := u.coerceSpec(e.eval(x.Args[1]), mt.Key())
 			k.T = mt.Key()
-			_, present := u.mapLookup(e.curState(), m, k, mt)
+			_, present := u.mapLookupSpec(e.curState(), m, k, mt)
 			return Term{S: present, T: types.Typ[types.Bool]}
 		case "chanlen", "chanat":
 			// ghost sequence of the values received from a channel (see execRangeChan)
@@ -487,6 +524,12 @@ func (e *SpecEnv) call(x *ast.CallExpr) Term {
 			// ghost byte counters of a writer / reader
 			a := e.eval(x.Args[0])
 			return Term{S: u.ghostCount(e.curState(), id.Name, a.S), T: types.Typ[types.Int]}
+		case "faithful":
+			// the reader behaves like a file: ReadAt returns exactly min(len(p), size-off) bytes, io.EOF only when short
+			a := e.eval(x.Args[0])
+			u.declareReaderGhost()
+			u.c.declareFun("rd.faithful", "(Int) Bool")
+			return Term{S: "(rd.faithful " + a.S + ")", T: types.Typ[types.Bool]}
 		case "fsize":
 			// ghost size of the file behind an io.ReaderAt
 			a := e.eval(x.Args[0])
@@ -683,6 +726,7 @@ func (e *SpecEnv) applySpecFunc(sf *SpecFunc, x *ast.CallExpr) Term {
 		// parameters shadow everything: evaluate body in an env without local names
 		sub := &SpecEnv{u: u, st: e.st, old: e.old, names: map[string]Term{}, cs: e.cs, pkg: e.pkg, bound: nb, inOld: e.inOld}
 		r := sub.eval(sf.Body)
+		e.reads = append(e.reads, sub.reads...)
 		r = u.coerceSpec(r, rt)
 		return r
 	}
